@@ -78,16 +78,16 @@ pub fn run_typeck(args: &[String]) {
         let built = guarded(|| import(&mut ctx, &J::Array(nodes.clone())));
         let id = format!("t{i}:{op}");
         let rec = match built {
-            Err((loc, msg)) => json!({"ev":"TypeCk","id":id,"nodes":[],"root":0,"tc":"panic","t":{},"gt":{},"loc":loc,"msg":msg}),
+            Err((loc, msg)) => json!({"ev":"TypeCk","id":id,"d":d,"nodes":[],"root":0,"tc":"panic","t":{},"gt":{},"loc":loc,"msg":msg}),
             Ok(refs) => {
                 let root = *refs.last().unwrap();
                 let (en, ix) = export_many(&ctx, &[root]);
                 let tc = guarded(|| root.type_check(&ctx));
                 let gt = guarded(|| root.get_type(&ctx));
                 match (tc, gt) {
-                    (Ok(Ok(t)), Ok(g)) => json!({"ev":"TypeCk","id":id,"nodes":en,"root":ix[0],"tc":"ok","t":type_json(t),"gt":type_json(g),"loc":"","msg":""}),
-                    (Ok(Err(e)), _) => json!({"ev":"TypeCk","id":id,"nodes":en,"root":ix[0],"tc":"err","t":{},"gt":{},"loc":"","msg":e.get_msg()}),
-                    (Err((loc, msg)), _) | (_, Err((loc, msg))) => json!({"ev":"TypeCk","id":id,"nodes":en,"root":ix[0],"tc":"panic","t":{},"gt":{},"loc":loc,"msg":msg}),
+                    (Ok(Ok(t)), Ok(g)) => json!({"ev":"TypeCk","id":id,"d":d,"nodes":en,"root":ix[0],"tc":"ok","t":type_json(t),"gt":type_json(g),"loc":"","msg":""}),
+                    (Ok(Err(e)), _) => json!({"ev":"TypeCk","id":id,"d":d,"nodes":en,"root":ix[0],"tc":"err","t":{},"gt":{},"loc":"","msg":e.get_msg()}),
+                    (Err((loc, msg)), _) | (_, Err((loc, msg))) => json!({"ev":"TypeCk","id":id,"d":d,"nodes":en,"root":ix[0],"tc":"panic","t":{},"gt":{},"loc":loc,"msg":msg}),
                 }
             }
         };
